@@ -545,13 +545,21 @@ func (c *Ctx) QueryOpt(hyps []Term, goal Term, negate bool, mode int) string {
 	}
 	var asserts []string
 	var comments []string
+	// axioms over uninterpreted sorts are kept verbatim; facts named "pre:..." (e.g. the
+	// congruence of checksum functions) go through quantifier preprocessing like hypotheses
 	for i, a := range c.axioms {
-		if axUsed[i] {
+		if axUsed[i] && !strings.HasPrefix(a.name, "pre:") {
 			asserts = append(asserts, a.body)
 			comments = append(comments, " ; axiom "+a.name)
 		}
 	}
 	nAx := len(asserts)
+	for i, a := range c.axioms {
+		if axUsed[i] && strings.HasPrefix(a.name, "pre:") {
+			asserts = append(asserts, a.body)
+			comments = append(comments, " ; fact "+a.name)
+		}
+	}
 	for _, h := range hyps {
 		if h.IsC && h.C != 0 {
 			continue
